@@ -121,7 +121,7 @@ def check(ctx):
     # ---------------- groupby cumulative: the carry pass groups exactly like the scan pass (dropna / observed)
     gcl = ctx.model.klass("dask/dataframe/dask_expr/_groupby.py", "GroupByCumulative").own_methods["_lower"]
     dicts = [d for d in ast.walk(gcl) if isinstance(d, ast.Dict) and any(isinstance(k, ast.Constant) and k.value == "chunk" for k in d.keys if k is not None)]
-    ok = bool(dicts) and all(any(k is None and unparse(v) == "dropna" for k, v in zip(d.keys, d.values)) for d in dicts)
+    ok = bool(dicts) and all(any(k is None and eqv(v, "dropna") for k, v in zip(d.keys, d.values)) for d in dicts)
     ctx.ob("SIB.groupby-cumulative.dropna", gcl, "every helper step of GroupByCumulative (scan, last) receives **dropna", ok, "" if ok else "the carry step groups with the default dropna: with dropna=False the NA group restarts in every partition")
     # ---------------- _var_chunk squares its input in place: it must work on a copy
     vc = ctx.model.module("dask/dataframe/groupby.py").func("_var_chunk")
